@@ -41,6 +41,9 @@ pub struct Wire {
     pub read_err_once: Option<io::ErrorKind>,
     /// the write half answers Ok(0) to every non-empty write (a closed pipe in some transports)
     pub write_zero: bool,
+    /// what poll_close answers (the library need not call it at all): 0 = Ok, 1 = Err, 2 = Pending once
+    pub close_mode: u8,
+    pub close_polls: u64,
     pub read_waker: Option<Waker>,
     /// true = inbound bytes are withheld (see DESIGN 3.3, gating rule)
     pub gate_closed: bool,
@@ -77,6 +80,8 @@ impl Wire {
             transient_kind: io::ErrorKind::ConnectionReset,
             read_err_once: None,
             write_zero: false,
+            close_mode: 0,
+            close_polls: 0,
             read_waker: None,
             gate_closed: false,
             zero_len_reads: 0,
@@ -254,7 +259,18 @@ impl AsyncWrite for MockWrite {
         Poll::Ready(Ok(()))
     }
 
-    fn poll_close(self: Pin<&mut Self>, _cx: &mut Context<'_>) -> Poll<io::Result<()>> {
-        Poll::Ready(Ok(()))
+    fn poll_close(self: Pin<&mut Self>, cx: &mut Context<'_>) -> Poll<io::Result<()>> {
+        let mut w = self.0.borrow_mut();
+        w.close_polls += 1;
+        match w.close_mode {
+            1 => Poll::Ready(Err(io::Error::new(io::ErrorKind::NotConnected, "mock: close failed"))),
+            2 if w.close_polls == 1 => {
+                // not yet; the shutdown completes a little later (the waker is called at once, the
+                // next poll succeeds)
+                cx.waker().wake_by_ref();
+                Poll::Pending
+            }
+            _ => Poll::Ready(Ok(())),
+        }
     }
 }
